@@ -129,7 +129,7 @@ theorem absorb_one {st : RdSt} (hwf : st.WF) (b : Nat) (h2 : 2 ≤ st.need) :
     simp [RdSt.absorb, RdSt.WF, RdSt.need, this]
     omega
 
-theorem absorb_wf {st : RdSt} (hwf : st.WF) {bs : Bytes} (hb : bs ≠ []) (hn : bs.length ≤ st.need) :
+theorem absorb_wf {st : RdSt} (hwf : st.WF) {bs : Bytes} (_hb : bs ≠ []) (hn : bs.length ≤ st.need) :
     (st.absorb bs).1.WF := by
   cases st with
   | lenBytes got =>
@@ -476,7 +476,7 @@ theorem run_frame (m : Bytes) (hm : Framable m) (rest : Bytes) (e : Ending) :
   simp only [frame, List.append_assoc]
   rw [h1]
   simp only [RdSt.absorb, List.nil_append, List.length_cons, List.length_nil, u16be_frame, after]
-  simp only [show ¬ (0 + 1 + 1 < 2) by omega, if_false, after]
+  simp only [show ¬ (0 + 1 + 1 < 2) by omega, if_false]
   rw [h2]
   simp [RdSt.absorb, after]
 
@@ -513,7 +513,7 @@ theorem run_partial (m : Bytes) (hm : Framable m) (k : Nat) (hk0 : 0 < k) (hk : 
     have : (frame m).take (k + 2) = [m.length / 256, m.length % 256] ++ m.take k := by simp [frame]
     rw [this, h1]
     simp only [RdSt.absorb, List.nil_append, List.length_cons, List.length_nil, u16be_frame, after]
-    simp only [show ¬ (0 + 1 + 1 < 2) by omega, if_false, after]
+    simp only [show ¬ (0 + 1 + 1 < 2) by omega, if_false]
     by_cases hk2 : k = 0
     · subst hk2
       simp [run, atEnd]
@@ -599,4 +599,379 @@ example : ∃ c : Conn, c.rd = .lenBytes [] ∧ c.w.queue ≠ [] ∧ c.w.ws = [.
     rfl, by simp, rfl, by decide, by simp [Framable]⟩
 
 example : obs (drain (fresh [.data [0], .pending, .data [1, 97, 0], .eof])).1 = ([[97]], .error) := by
+  rw [fresh_obs]; decide
+
+/-! ## the send side: `write_bytes` -/
+
+/-- what the code puts on the wire for a message: `(len as u16).to_be_bytes()` then the message -/
+def wframe (m : Bytes) : Bytes := lenPrefix m.length ++ m
+
+theorem wframe_eq_frame (m : Bytes) (h : m.length < 65536) : wframe m = frame m := by
+  simp [wframe, frame, lenPrefix, Nat.mod_eq_of_lt h]
+
+/-- beyond 65535 bytes the `as u16` cast wraps: the prefix no longer is the length -/
+theorem wframe_oversize (m : Bytes) (h : 65536 ≤ m.length) : u16be ((wframe m).take 2) ≠ m.length := by
+  simp [wframe, lenPrefix, u16be]; omega
+
+def wframes : List Bytes → Bytes
+  | [] => []
+  | m :: ms => wframe m ++ wframes ms
+
+/-- bytes of the message in flight that the socket has not accepted yet -/
+def inFlight : Option WrSt → Bytes
+  | none => []
+  | some .flushing => []
+  | some (.lenBytes pos l b) => l.drop pos ++ b
+  | some (.datBytes pos b) => b.drop pos
+
+/-- frames of the queued messages that are addressed to the peer -/
+def queued : List (Bytes × Bool) → Bytes
+  | [] => []
+  | (m, true) :: q => wframe m ++ queued q
+  | (_, false) :: q => queued q
+
+/-- everything accepted for sending that is not yet on the wire -/
+def owed (w : WSide) : Bytes := inFlight w.send ++ queued w.queue
+
+def WrWF : Option WrSt → Prop
+  | some (.lenBytes pos l _) => pos ≤ l.length
+  | some (.datBytes pos b) => pos ≤ b.length
+  | _ => True
+
+theorem inFlight_afterLen (pos j : Nat) (l b : Bytes) (hp : pos ≤ l.length) :
+    inFlight (some (WrSt.afterLen (pos + j) l b)) = (l.drop pos ++ b).drop j ∧
+      WrWF (some (WrSt.afterLen (pos + j) l b)) := by
+  unfold WrSt.afterLen
+  split
+  · simp only [inFlight, WrWF]
+    rw [List.drop_append_of_le_length (by simp; omega), List.drop_drop]
+    exact ⟨rfl, by omega⟩
+  · split
+    · simp only [inFlight, WrWF]
+      rw [List.drop_append]
+      have : List.drop j (List.drop pos l) = [] := by simp; omega
+      rw [this]
+      simp only [List.nil_append, List.length_drop]
+      exact ⟨by congr 1; omega, by omega⟩
+    · simp only [inFlight, WrWF, and_true]
+      symm; simp; omega
+
+theorem inFlight_afterDat (pos j : Nat) (b : Bytes) :
+    inFlight (some (WrSt.afterDat (pos + j) b)) = (b.drop pos).drop j ∧
+      WrWF (some (WrSt.afterDat (pos + j) b)) := by
+  unfold WrSt.afterDat
+  split
+  · constructor
+    · simp only [inFlight, List.drop_drop]
+    · simp only [WrWF]; omega
+  · constructor
+    · simp only [inFlight]
+      symm; simp; omega
+    · simp only [WrWF]
+
+theorem sockWrite_prefix {ws : List WEv} {buf bs : Bytes} {ws' : List WEv}
+    (h : sockWrite ws buf = (.wrote bs, ws')) : bs <+: buf := by
+  unfold sockWrite at h
+  split at h <;> simp at h
+  obtain ⟨rfl, _⟩ := h
+  exact List.take_prefix _ _
+
+theorem sockWriteVectored_prefix {vec : Bool} {ws : List WEv} {x b bs : Bytes} {ws' : List WEv}
+    (h : sockWriteVectored vec ws [x, b] = (.wrote bs, ws')) : bs <+: x ++ b := by
+  unfold sockWriteVectored at h
+  split at h
+  · simpa using sockWrite_prefix h
+  · have hp := sockWrite_prefix h
+    refine hp.trans ?_
+    cases x with
+    | nil =>
+      cases b with
+      | nil => simp [List.find?]
+      | cons a t => simp [List.find?]
+    | cons a t => simp [List.find?]
+
+theorem prefix_take_drop {bs p : Bytes} (h : bs <+: p) : bs ++ p.drop bs.length = p := by
+  obtain ⟨t, rfl⟩ := h
+  simp
+
+/-- **The send loop conserves bytes**: what the socket has accepted plus what is still owed never
+changes — nothing is lost, repeated or reordered, for every acceptance script (partial writes,
+`accept 0`, `pending`, errors, a blocked socket), with or without a real gather-write. -/
+theorem writeLoop_conserves (vec : Bool) (w : WSide) (hwf : WrWF w.send) :
+    (writeLoop vec w).1.written ++ owed (writeLoop vec w).1 = w.written ++ owed w ∧
+      WrWF (writeLoop vec w).1.send := by
+  fun_induction writeLoop vec w
+  case case4 w pos l b hs bs ws' hw ih =>
+    rw [hs] at hwf
+    have hpre := sockWriteVectored_prefix hw
+    have hfl := inFlight_afterLen pos bs.length l b hwf
+    have ih' := ih hfl.2
+    refine ⟨?_, ih'.2⟩
+    rw [ih'.1]
+    simp only [owed]
+    rw [hfl.1, hs]
+    simp only [inFlight]
+    rw [List.append_assoc, ← List.append_assoc bs, prefix_take_drop hpre]
+  case case8 w pos b hs bs ws' hw ih =>
+    have hpre := sockWrite_prefix hw
+    have hfl := inFlight_afterDat pos bs.length b
+    have ih' := ih hfl.2
+    refine ⟨?_, ih'.2⟩
+    rw [ih'.1]
+    simp only [owed]
+    rw [hfl.1, hs]
+    simp only [inFlight]
+    rw [List.append_assoc, ← List.append_assoc bs, prefix_take_drop hpre]
+  case case12 w hs ws' hw ih =>
+    have ih' := ih (by simp [WrWF])
+    refine ⟨?_, ih'.2⟩
+    rw [ih'.1]
+    simp [owed, hs, inFlight]
+  case case14 w hs m q hq ih =>
+    have ih' := ih (by simp [WrWF])
+    refine ⟨?_, ih'.2⟩
+    rw [ih'.1]
+    simp [owed, hs, hq, inFlight, queued, wframe]
+  all_goals simp_all [owed, queued]
+
+theorem pollNext_w (c : Conn) : (pollNext c).1.w = (writeLoop c.vec c.w).1 := by
+  unfold pollNext
+  split <;> simp [*]
+
+theorem pollNext_conserves (c : Conn) (hwf : WrWF c.w.send) :
+    (pollNext c).1.w.written ++ owed (pollNext c).1.w = c.w.written ++ owed c.w ∧
+      WrWF (pollNext c).1.w.send := by
+  rw [pollNext_w]; exact writeLoop_conserves c.vec c.w hwf
+
+theorem drain_conserves (c : Conn) (hwf : WrWF c.w.send) :
+    (drain c).2.w.written ++ owed (drain c).2.w = c.w.written ++ owed c.w ∧ WrWF (drain c).2.w.send := by
+  fun_induction drain c with
+  | case1 c c' m h r ih =>
+    have hp := pollNext_conserves c hwf; rw [h] at hp
+    have ih' := ih hp.2
+    exact ⟨ih'.1.trans hp.1, ih'.2⟩
+  | case2 c c' h r ih =>
+    have hp := pollNext_conserves c hwf; rw [h] at hp
+    have ih' := ih hp.2
+    exact ⟨ih'.1.trans hp.1, ih'.2⟩
+  | case3 c c' it hnm hnp h =>
+    have hp := pollNext_conserves c hwf; rw [h] at hp
+    exact hp
+
+theorem queued_append (q : List (Bytes × Bool)) (m : Bytes) (ok : Bool) :
+    queued (q ++ [(m, ok)]) = queued q ++ (if ok then wframe m else []) := by
+  induction q with
+  | nil => cases ok <;> simp [queued]
+  | cons x t ih =>
+    obtain ⟨a, b⟩ := x
+    cases b <;> simp [queued, ih]
+
+theorem owed_enqueue (c : Conn) (m : Bytes) (ok : Bool) :
+    owed (c.enqueue m ok).w = owed c.w ++ (if ok then wframe m else []) := by
+  simp [owed, Conn.enqueue, queued_append]
+
+/-- the messages a consumer program hands to `send` for the peer, in order -/
+def okSends : List Act → List Bytes
+  | [] => []
+  | .send m true :: as => m :: okSends as
+  | _ :: as => okSends as
+
+/-- any history of sends and polls (polling on after an error included) -/
+def execAll (c : Conn) : List Act → Conn
+  | [] => c
+  | .send m ok :: as => execAll (c.enqueue m ok) as
+  | .poll :: as => execAll (pollNext c).1 as
+
+theorem wframes_append (a b : List Bytes) : wframes (a ++ b) = wframes a ++ wframes b := by
+  induction a with
+  | nil => simp [wframes]
+  | cons x t ih => simp [wframes, ih]
+
+/-- **Bytes written, exact form.**  After any interleaving of `send`s and `poll_next`s, over any
+acceptance script: bytes accepted by the socket ++ bytes still owed = what was there before ++
+`frame m₁ ++ … ++ frame mₖ` of the messages sent meanwhile, in order. -/
+theorem write_bytes (prog : List Act) : ∀ (c : Conn), WrWF c.w.send →
+    (execAll c prog).w.written ++ owed (execAll c prog).w = c.w.written ++ owed c.w ++ wframes (okSends prog) ∧
+      WrWF (execAll c prog).w.send := by
+  induction prog with
+  | nil => intro c hwf; simp [execAll, okSends, wframes, hwf]
+  | cons a as ih =>
+    intro c hwf
+    cases a with
+    | send m ok =>
+      have := ih (c.enqueue m ok) (by simpa [Conn.enqueue] using hwf)
+      refine ⟨?_, this.2⟩
+      simp only [execAll]
+      rw [this.1, owed_enqueue]
+      cases ok <;> simp [okSends, wframes, Conn.enqueue]
+    | poll =>
+      have hp := pollNext_conserves c hwf
+      have := ih (pollNext c).1 hp.2
+      refine ⟨?_, this.2⟩
+      simp only [execAll, okSends]
+      rw [this.1, hp.1]
+
+/-- the run of the harness' consumer (sends and polls, stop at the first terminal item, then drain):
+the bytes on the wire are always a prefix of the concatenated frames -/
+theorem write_bytes_prefix (prog : List Act) : ∀ (c : Conn), WrWF c.w.send →
+    (runProg c prog).2.w.written <+: c.w.written ++ owed c.w ++ wframes (okSends prog) := by
+  induction prog with
+  | nil =>
+    intro c hwf
+    have := (drain_conserves c hwf).1
+    simp only [runProg, okSends, wframes, List.append_nil]
+    rw [← this]; exact List.prefix_append _ _
+  | cons a as ih =>
+    intro c hwf
+    cases a with
+    | send m ok =>
+      have := ih (c.enqueue m ok) (by simpa [Conn.enqueue] using hwf)
+      simp only [runProg]
+      rw [owed_enqueue] at this
+      cases ok <;> simpa [okSends, wframes, Conn.enqueue] using this
+    | poll =>
+      have hp := pollNext_conserves c hwf
+      simp only [runProg, okSends]
+      split
+      · simp only
+        rw [← hp.1, List.append_assoc]; exact List.prefix_append _ _
+      · simp only
+        have := ih (pollNext c).1 hp.2
+        rwa [hp.1] at this
+
+/-- when a drained run ends with nothing half-sent, nothing is queued either -/
+theorem drain_final_queue (c : Conn) (hq : AllOk c.w.queue) (hfin : (drain c).2.w.send = none) :
+    (drain c).2.w.queue = [] := by
+  fun_induction drain c with
+  | case1 c c' m h r ih =>
+    have hw := pollNext_w c; rw [h] at hw
+    exact ih (by simp only at hw; rw [hw]; exact writeLoop_allOk _ _ hq) hfin
+  | case2 c c' h r ih =>
+    have hw := pollNext_w c; rw [h] at hw
+    exact ih (by simp only at hw; rw [hw]; exact writeLoop_allOk _ _ hq) hfin
+  | case3 c c' it hnm hnp h =>
+    have hw := pollNext_w c; rw [h] at hw
+    simp only at hw hfin ⊢
+    rw [hw] at hfin ⊢
+    by_cases hd : (writeLoop c.vec c.w).2 = .done
+    · exact (writeLoop_done _ _ hd).1
+    · exact absurd hfin (writeLoop_not_done _ _ hq hd)
+
+/-- **Bytes written, completed run.**  Queue `m₁ … mₖ` on a fresh connection and drain it over any
+read script and any acceptance script: the socket has accepted a prefix of
+`frame m₁ ++ … ++ frame mₖ`, and exactly all of it whenever the run ends with no message half-sent
+(in particular whenever it ends on the receive side: clean end, read error, or waiting for input). -/
+theorem write_bytes_drained (rs : List REv) (ws : List WEv) (vec : Bool) (ms : List Bytes) :
+    let c := execAll { vec := vec, rs := rs, w := { ws := ws } } (ms.map (Act.send · true))
+    (drain c).2.w.written <+: wframes ms ∧
+      ((drain c).2.w.send = none → (drain c).2.w.written = wframes ms) := by
+  intro c
+  have hok : okSends (ms.map (Act.send · true)) = ms := by
+    induction ms with
+    | nil => rfl
+    | cons m t ih => simp [okSends, ih]
+  have hex := write_bytes (ms.map (Act.send · true)) { vec := vec, rs := rs, w := { ws := ws } } (by simp [WrWF])
+  rw [hok] at hex
+  have h0 : ({ vec := vec, rs := rs, w := { ws := ws } } : Conn).w.written ++
+      owed ({ vec := vec, rs := rs, w := { ws := ws } } : Conn).w = [] := by simp [owed, inFlight, queued]
+  rw [h0, List.nil_append] at hex
+  have hex1 : c.w.written ++ owed c.w = wframes ms := hex.1
+  have hdr := drain_conserves c hex.2
+  have hall : AllOk c.w.queue := by
+    show AllOk (execAll _ _).w.queue
+    suffices h : ∀ (l : List Bytes) (c : Conn), AllOk c.w.queue → AllOk (execAll c (l.map (Act.send · true))).w.queue from
+      h ms _ (by simp [AllOk])
+    intro l
+    induction l with
+    | nil => intro c h; simpa [execAll] using h
+    | cons m t ih =>
+      intro c h
+      simp only [List.map_cons, execAll]
+      apply ih
+      intro x hx
+      simp [Conn.enqueue] at hx
+      rcases hx with hx | rfl
+      · exact h x hx
+      · rfl
+  constructor
+  · rw [← hex1, ← hdr.1]; exact List.prefix_append _ _
+  · intro hfin
+    have hq := drain_final_queue c hall hfin
+    have := hdr.1
+    simp only [owed, hfin, hq, inFlight, queued, List.append_nil] at this
+    rw [this]; exact hex1
+
+theorem wframes_eq_frames (ms : List Bytes) (h : ∀ m ∈ ms, m.length < 65536) : wframes ms = frames ms := by
+  induction ms with
+  | nil => rfl
+  | cons m t ih =>
+    simp only [wframes, frames]
+    rw [wframe_eq_frame m (h m (by simp)), ih (fun x hx => h x (by simp [hx]))]
+
+/-- non-vacuity: a 1-byte-at-a-time acceptance script with `pending`s and an `accept 0` -/
+example : ∃ ws : List WEv, ws = [.accept 1, .pending, .accept 0, .accept 1, .accept 1, .pending, .accept 9] ∧
+    wframes [[97, 98]] = [0, 2, 97, 98] := ⟨_, rfl, by decide⟩
+
+/-! ## zero-length frames, consumer programs, the initial state -/
+
+/-- What the code does with a zero-length frame (`00 00`): it is never delivered as a message; the
+next `poll_read` is handed an empty buffer, reads 0 and is taken for a close inside a message, so the
+stream yields an error as soon as anything at all follows (more bytes, a close, a failure) — the
+property allows exactly this.  Messages that follow the zero-length frame are not delivered. -/
+theorem run_zero_frame (rest : Bytes) (e : Ending) :
+    run (.lenBytes []) (0 :: 0 :: rest) e = ([], if rest = [] then cut e else .error) := by
+  cases rest with
+  | nil => cases e <;> simp [run, RdSt.need, RdSt.absorb, u16be, atEnd, cut]
+  | cons b t => simp [run, RdSt.need, RdSt.absorb, u16be]
+
+theorem zero_length_frame_ends_stream (s : List REv) (vec : Bool) (ms : List Bytes)
+    (hms : ∀ m ∈ ms, Framable m) (rest : Bytes) (hb : bytesOf s = frames ms ++ 0 :: 0 :: rest) :
+    obs (drain (fresh s vec)).1 = (ms, if rest = [] then cut (endingOf s) else .error) := by
+  rw [fresh_obs, hb, run_frames ms hms, run_zero_frame]
+  simp
+
+/-- an empty message is never delivered, whatever the bytes -/
+theorem run_no_empty (bs : Bytes) : ∀ (st : RdSt), st.WF → ∀ e, [] ∉ (run st bs e).1 := by
+  induction bs with
+  | nil => intro st _ e; simp [run]
+  | cons b t ih =>
+    intro st hwf e
+    simp only [run]
+    split
+    · simp
+    · rename_i hne
+      have hwf' := absorb_wf (bs := [b]) hwf (by simp) (by simp; omega)
+      split
+      · rename_i st' m heq
+        rw [heq] at hwf'
+        simp only [List.mem_cons, not_or]
+        refine ⟨?_, ih st' hwf' e⟩
+        cases st with
+        | lenBytes got => simp only [RdSt.absorb] at heq; split at heq <;> simp at heq
+        | datBytes len got =>
+          simp only [RdSt.absorb] at heq
+          split at heq <;> simp at heq
+          obtain ⟨_, rfl⟩ := heq
+          simp
+      · rename_i st' o hno heq
+        rw [heq] at hwf'
+        exact ih st' hwf' e
+
+theorem no_empty_message (c : Conn) (hwf : c.rd.WF) : [] ∉ (obs (drain c).1).1 := by
+  intro h
+  exact run_no_empty _ _ hwf _ ((drain_obs c hwf).1.subset h)
+
+/-- a consumer program that only sends is `execAll` followed by `drain` -/
+theorem runProg_sends (ms : List (Bytes × Bool)) : ∀ c : Conn,
+    runProg c (ms.map fun x => Act.send x.1 x.2) = drain (execAll c (ms.map fun x => Act.send x.1 x.2)) := by
+  induction ms with
+  | nil => intro c; rfl
+  | cons x t ih => intro c; simp only [List.map_cons, runProg, execAll]; exact ih _
+
+/-- `TcpStream::from_stream` starts in a well-formed state with nothing to send -/
+theorem fresh_wf (rs : List REv) (vec : Bool) :
+    (fresh rs vec).rd.WF ∧ Quiet (fresh rs vec).w ∧ WrWF (fresh rs vec).w.send := by
+  simp [fresh, RdSt.WF, Quiet, WrWF]
+
+example : obs (drain (fresh [.data [0, 1, 97, 0], .data [0, 0, 1, 98], .eof])).1 = ([[97]], .error) := by
   rw [fresh_obs]; decide
